@@ -307,6 +307,8 @@ class Extractor:
             return ("lit", repr(v))
         if isinstance(e, ast.Name):
             if e.id in env:
+                if isinstance(env[e.id], tuple) and env[e.id] and env[e.id][0] == "unreadable":
+                    raise Unsupported(env[e.id][1])     # a value that could not be read is an error only where it is used
                 return env[e.id]
             if e.id in self.local_funcs:
                 return ("fn", self.local_prefix + e.id)
@@ -530,6 +532,43 @@ class Extractor:
         return ret if ret is not None else ("lit", None)
 
     # ---------------------------------------------------------------- statements
+    def memo_idiom(self, st, nxt):
+        """(target, computed expression) when st; nxt are a transparent memo lookup of a module-level table, None when they are not
+        a memo lookup at all; Unsupported when they are one whose key is not shown injective (the value read may be another argument's)."""
+        if not (isinstance(st, ast.Assign) and len(st.targets) == 1 and isinstance(st.targets[0], ast.Name) and isinstance(st.value, ast.Call)
+                and isinstance(st.value.func, ast.Attribute) and st.value.func.attr == "get" and isinstance(st.value.func.value, ast.Name)
+                and len(st.value.args) == 1 and not st.value.keywords and isinstance(nxt, ast.If) and not nxt.orelse and len(nxt.body) in (1, 2)):
+            return None
+        v, d = st.targets[0].id, st.value.func.value.id
+        t = nxt.test
+        if not (isinstance(t, ast.Compare) and isinstance(t.left, ast.Name) and t.left.id == v and len(t.ops) == 1 and isinstance(t.ops[0], ast.Is)
+                and isinstance(t.comparators[0], ast.Constant) and t.comparators[0].value is None):
+            return None
+        if not all(isinstance(x, ast.Assign) for x in nxt.body):
+            return None
+        b = nxt.body[0]
+        tg = list(b.targets)
+        if len(nxt.body) == 2:      # v = E; D[k] = v   (the chained form after the normaliser split it)
+            b2 = nxt.body[1]
+            if not (isinstance(b2.value, ast.Name) and b2.value.id == v and len(b2.targets) == 1 and len(tg) == 1):
+                return None
+            tg = tg + list(b2.targets)
+        names = [x for x in tg if isinstance(x, ast.Name) and x.id == v]
+        subs = [x for x in tg if isinstance(x, ast.Subscript) and isinstance(x.value, ast.Name) and x.value.id == d]
+        if len(names) != 1 or len(subs) != 1 or len(tg) != 2:
+            return None
+        from sa import memo as M
+        params = {a.arg for a in self.fn.args.posonlyargs + self.fn.args.args + self.fn.args.kwonlyargs} if hasattr(self.fn, "args") else set()
+        if d in params:
+            return None
+        lenv, unpack = M._env(self.fn)
+        if ast.dump(M._expand(subs[0].slice, lenv, params)) != ast.dump(M._expand(st.value.args[0], lenv, params)):
+            raise Unsupported(f"memo table {d}: looked up under one key and stored under another")
+        verdict, msg = M.store_verdict(subs[0].slice, b.value, lenv, unpack, params)
+        if verdict != "ok":
+            raise Unsupported(f"memo table {d}: {msg}")
+        return names[0], b.value
+
     def block(self, stmts: List[ast.stmt], env: Dict[str, tuple]):
         """Returns (env after, returned expression or None when control falls through).
         Early exits taken on some paths only are kept as pending (condition, value) pairs and folded in
@@ -541,14 +580,29 @@ class Extractor:
 
     def _block(self, stmts: List[ast.stmt], env: Dict[str, tuple]):
         pend: List[tuple] = []
+        skip = -1
         for i, st in enumerate(stmts):
+            if i == skip:
+                continue
+            memo = self.memo_idiom(st, stmts[i + 1] if i + 1 < len(stmts) else None)
+            if memo is not None:
+                # v = D.get(k); if v is None: v = D[k] = E   with k injective in all E is computed from  ==>  v = E
+                v, expr = memo
+                self.assign(v, self.ev(expr, env), env)
+                skip = i + 1
+                continue
             if isinstance(st, ast.Expr):
                 if isinstance(st.value, ast.Constant):
                     continue
                 self.ev(st.value, env)   # must be readable
                 continue
             if isinstance(st, ast.Assign):
-                val = self.ev(st.value, env)
+                try:
+                    val = self.ev(st.value, env)
+                except Unsupported as ex:
+                    if not (len(st.targets) == 1 and isinstance(st.targets[0], ast.Name) and isinstance(st.value, ast.BinOp)):
+                        raise
+                    val = ("unreadable", str(ex))      # e.g. a bit-packed memo key: only the memo idiom looks at it, through the syntax
                 for t in st.targets:
                     self.assign(t, val, env)
                 continue
